@@ -82,7 +82,7 @@ fn gen_series(rng: &mut Rng, len: usize) -> (Vec<f64>, String) {
             3 => c,                                        // constant
             _ => { cur += rng.range(-20, 20); cur }        // random walk
         };
-        xs.push(if mask[i] { f64::NAN } else { k as f64 / 4.0 });
+        xs.push(if mask[i] { vh::nan_at(i) } else { k as f64 / 4.0 });
     }
     let styles = ["uniform", "alphabet", "monotone", "constant", "walk"];
     (xs, format!("style={} nulls={}", styles[style], pat))
